@@ -68,3 +68,9 @@ TEXT["C14"] = {
     "design_ref": "DESIGN.md section 3, C14",
     "level_note": "Sampling of sequential histories; concurrency for the immutable-tags mode is covered by C08's workloads. Media-type disagreement between a referring descriptor and the stored manifest is not generated.",
 }
+TEXT["C15"] = {
+    "technique": "property-based testing (rapid): (a) reads through ociunify over two independently generated member states, oracle computed from the members' own answers, both read policies, delayed member; (b) differential write histories: unifier over two equal members vs a lone registry, member-equality invariant after every step",
+    "level_text": "(a) Pairs of member states (equal / disjoint / overlapping / conflicting tags / repository on one side) are produced by two generated histories; reads aimed at what either touched go through the unifier under both policies, optionally with the content holder delayed: digest reads succeed iff a member has the content (with its bytes), tag reads never choose silently between conflicting digests, listings are the sorted duplicate-free union with NAME_UNKNOWN only when both members say so. (b) The same write history (incl. chunked uploads, resume in both modes, cancel-then-resume) is applied through the unifier over two equal members and to a lone registry: success/failure and results must agree and all three registries must stay observably identical after every step.",
+    "design_ref": "DESIGN.md section 3, C15",
+    "level_note": "Sampling. Exact answer orders and cancellation points are decided in C16 with controlled schedules.",
+}
